@@ -94,6 +94,11 @@ fn main() {
         });
     let replay = arg_value(&args, "--replay").map(PathBuf::from);
     let started = Instant::now();
+    // the quick tiers are sized to finish inside the budget on this machine; on a machine that runs
+    // many checks at once they finish the same enumeration (see Ctx::out_of_time)
+    if !tier.is_thorough() {
+        unsafe { std::env::set_var("VERIF_CPU_BUDGET", "1") };
+    }
 
     // never let a worker thread's panic message be the only trace: keep default hook but
     // make sure logging of ckb crates is silent unless asked for
